@@ -2,21 +2,28 @@ package eventbus
 
 import "context"
 
-//verif:entry property=C01 tier=both bounds="re-entrancy: n<=N plain handlers of one type (plus one of another type); during a publish, handler k performs ONE operation out of {subscribe same type, subscribe other type, unsubscribe handler j, clear, clear-all, nested publish same type, nested publish other type}; deliveries of the running publish = snapshot at its start" cover="reentrant-done" N_quick=3 N_thorough=3
+//verif:entry property=C01 tier=both bounds="re-entrancy: n<=N plain handlers of one type (plus one of another type); all of them Once handlers or none; during a publish, handler k performs ONE operation out of {subscribe same type, subscribe other type, unsubscribe handler j, clear, clear-all, nested publish same type, nested publish other type}; deliveries of the running publish = snapshot at its start" cover="reentrant-done" N_quick=3 N_thorough=3
 func harnessC01Reentrant() {
 	N := vParam("N", 3)
 	c01Log, c01Re = nil, nil
 	bus := New()
 	m := &c01Model{}
 	n := vInt(1, N)
+	allOnce := vBool() // every handler of the type is a Once handler
 	for i := 0; i < n; i++ {
-		vAssert(Subscribe(bus, c01HA[i]) == nil, "subscribe-ok")
-		m.subscribe(0, &c01Reg{id: i})
+		if allOnce {
+			vAssert(Subscribe(bus, c01HA[i], Once()) == nil, "subscribe-ok")
+		} else {
+			vAssert(Subscribe(bus, c01HA[i]) == nil, "subscribe-ok")
+		}
+		m.subscribe(0, &c01Reg{id: i, once: allOnce})
 	}
 	vAssert(Subscribe(bus, c01HB[0]) == nil, "subscribe-ok")
 	m.subscribe(1, &c01Reg{id: 0})
 	k := vInt(0, n-1)
 	op := vPick(7)
+	// a nested publish of the same type with Once handlers is a different question (C04)
+	vAssume(!(allOnce && op == 5))
 	j := vInt(0, n-1)
 	done := false
 	// expected log, built alongside
@@ -63,6 +70,22 @@ func harnessC01Reentrant() {
 		}
 	}
 	Publish(bus, evA{N: 1})
+	if allOnce {
+		// every Once handler of the snapshot has fired and is retired; what was added meanwhile stays
+		var keep []*c01Reg
+		for _, r := range m.regs[0] {
+			inSnap := false
+			for _, q := range snapshot {
+				if q == r {
+					inSnap = true
+				}
+			}
+			if !inSnap {
+				keep = append(keep, r)
+			}
+		}
+		m.regs[0] = keep
+	}
 	vAssert(done, "reentrant-operation-ran")
 	vAssert(c01SameOrdered(c01TakeLog(), want), "running-publish-delivers-its-snapshot")
 	c01Re = nil
